@@ -262,20 +262,49 @@ func (i *interpreter) makeViolation(tp targetPanic) *Violation {
 		v.Msg = strings.TrimPrefix(msg, assertMarker)
 	}
 	v.Decisions = append([]int{}, c.trace...)
-	// CEGAR on the ParseFloat stub: the model's strings are checked against the real function
+	// ParseFloat stub: first look for a model whose ParseFloat arguments all come from the
+	// table of strings whose real results are asserted as facts (such a model agrees with the
+	// real function by construction); only if there is none, refine by CEGAR.
 	var model smt.Model
 	ok := false
-	for round := 0; round < 20; round++ {
-		var extra []*sym.Term
-		for _, pc := range c.pfCalls {
-			for _, b := range pc.bytes {
-				if s, isS := b.(*Sym); isS {
-					extra = append(extra, s.T)
-				}
+	var extraTerms []*sym.Term
+	for _, pc := range c.pfCalls {
+		for _, b := range pc.bytes {
+			if s, isS := b.(*Sym); isS {
+				extraTerms = append(extraTerms, s.T)
 			}
 		}
-		model, ok = c.finalModel(extra)
+	}
+	if len(c.pfCalls) > 0 {
+		var restrict []*sym.Term
+		for _, pc := range c.pfCalls {
+			var alts []*sym.Term
+			for _, cand := range pfCandidates(len(pc.bytes)) {
+				c.pfFact(cand)
+				alts = append(alts, c.bytesEq(pc.bytes, strBytes(cand)))
+			}
+			restrict = append(restrict, c.B.Or(alts...))
+		}
+		c.flushPC()
+		var want []*sym.Term
+		for _, n := range c.nondets {
+			want = append(want, n.Term)
+		}
+		if len(want) > 0 {
+			r, m := c.S.Check(restrict, want)
+			if r == smt.Sat {
+				model, ok = m, true
+			}
+		}
+	}
+	for round := 0; !ok && round < 30; round++ {
+		model, ok = c.finalModel(extraTerms)
 		if !ok {
+			if round > 0 {
+				// the facts learned from the real ParseFloat refute the candidate: not a violation
+				c.Refuted++
+				return nil
+			}
 			break
 		}
 		newFact := false
@@ -288,11 +317,10 @@ func (i *interpreter) makeViolation(tp targetPanic) *Violation {
 				case *Sym:
 					if b.T.IsConst() {
 						bs[k] = byte(b.T.Val)
+					} else if c.Mode == Math {
+						bs[k] = byte(model[b.T.ID].Int.Int64())
 					} else {
 						bs[k] = byte(model[b.T.ID].Bits)
-						if c.Mode == Math {
-							bs[k] = byte(model[b.T.ID].Int.Int64())
-						}
 					}
 				}
 			}
@@ -311,6 +339,10 @@ func (i *interpreter) makeViolation(tp targetPanic) *Violation {
 	if !ok {
 		v.Unsure = true
 		c.Inconcl++
+		if os.Getenv("SYMX_DEBUG") != "" {
+			fmt.Fprintf(os.Stderr, "[symx] unsure violation at %s: lastError=%s\n", v.Site, c.S.LastError)
+			fmt.Fprintf(os.Stderr, "%s\n", c.S.Standalone(nil, nil))
+		}
 		return v
 	}
 	v.Model = model
